@@ -42,9 +42,24 @@ type c13case struct {
 	vars   []term.VarDecl
 	binds  [][]interface{}
 	what   string
+	// optional: the source may legitimately be rejected under some option
+	// sets (a capacity limit): only accepted compilations are judged
+	optional bool
 }
 
 func c13Round(r *rep.Run, h *drive.Harness, c *c13case, o drive.Opt, stats *[3]int64) {
+	// the names under which the text is recompiled always include variables
+	// CALLED true and false, bound to the opposite values: Dump prints folded
+	// booleans as the words true/false, which must keep meaning the constants
+	{
+		cc := *c
+		cc.vars = append(append([]term.VarDecl{}, c.vars...), term.VarDecl{Name: "true", Ty: term.TB}, term.VarDecl{Name: "false", Ty: term.TB})
+		cc.binds = nil
+		for _, b := range c.binds {
+			cc.binds = append(cc.binds, append(append([]interface{}{}, b...), false, true))
+		}
+		c = &cc
+	}
 	mk := func(o drive.Opt) *eval.Config {
 		cfg := h.NewConfig(c.vars, o)
 		for k, v := range c.consts {
@@ -62,6 +77,9 @@ func c13Round(r *rep.Run, h *drive.Harness, c *c13case, o drive.Opt, stats *[3]i
 	e, err := h.Compile(mk(o), c.src, 256)
 	atomic.AddInt64(&stats[0], 1)
 	if err != nil {
+		if _, isPanic := err.(*drive.PanicErr); !isPanic && c.optional {
+			return
+		}
 		r.Violate("compile", c.src, sprintf("corpus source does not compile: %v", err), d(nil))
 		return
 	}
@@ -77,7 +95,7 @@ func c13Round(r *rep.Run, h *drive.Harness, c *c13case, o drive.Opt, stats *[3]i
 		// folded to a bare scalar constant: excluded by the statement — but a
 		// bare variable is not a constant
 		if bt, perr := sx.Parse(text); perr == nil && bt.K == term.KVar {
-			if _, cerr := h.Compile(mk(drive.Opt{}), text, 0); cerr != nil {
+			if _, cerr := h.Compile(mk(drive.Opt{Infix: o.Infix}), text, 0); cerr != nil {
 				r.Violate("dump-does-not-compile", c.what+o.String()+"bare", sprintf("the program collapsed to the bare variable %s, whose Dump does not compile: %v", text, cerr), d(map[string]interface{}{"dump": text}))
 			}
 		}
@@ -126,7 +144,7 @@ func c13(r *rep.Run) {
 		strLen, progMax = 3, 6
 		r.SetBudget(1800e9)
 	}
-	r.Rule = "(1) every string of length <= bound over 14 characters (blank, parens, semicolon, backslash, line break, tab, apostrophe, bracket, comma, non-ASCII, control) and ints {0,-1,min,max}, as a literal, inside a list literal and as a ConstantMap constant, in 7 expression contexts x 16 optimisation subsets x {events off, ReportEvent, Debug}; (2) every RICH/CORE program up to the node bound x the same configurations. Oracle: unless the program folded to a bare scalar, Compile(Dump(e)) succeeds under the same names, the recompiled program (optimisations off, and with the same options) returns the same result as the original on every binding, and Dump(Compile_unoptimised(Dump(e))) == Dump(e). non-trivial = round trips whose Dump text contains a character outside [A-Za-z0-9 ()\"=]"
+	r.Rule = "(1) every string of length <= bound over 14 characters (blank, parens, semicolon, backslash, line break, tab, apostrophe, bracket, comma, non-ASCII, control) and ints {0,-1,min,max}, as a literal, inside a list literal and as a ConstantMap constant, in 7 expression contexts x 16 optimisation subsets x {events off, ReportEvent, Debug}; (2) every RICH/CORE program up to the node bound x the same configurations. (3) nested same-kind and/or groups totalling 120..131 operands once flattened (judged wherever Compile accepts them). The names always include variables CALLED true and false bound to the opposite values. Oracle: unless the program folded to a bare scalar, Compile(Dump(e)) succeeds under the same names, the recompiled program (optimisations off, and with the same options) returns the same result as the original on every binding, and Dump(Compile_unoptimised(Dump(e))) == Dump(e). non-trivial = round trips whose Dump text contains a character outside [A-Za-z0-9 ()\"=]"
 	r.Assume = []string{"string literals never contain a double quote (the lexer cannot produce one)", "small-scope hypothesis on tree size for part (2)"}
 	r.Cov["bounds"] = map[string]int{"string_len": strLen, "program_nodes": progMax}
 	strs := c13Strings(strLen)
@@ -203,6 +221,23 @@ func c13(r *rep.Run) {
 			&c13case{src: "(in s (" + strings.Join(ss, " ") + "))", vars: sv, binds: [][]interface{}{{"e 3", true, []string{}}, {"zz", true, []string{}}}, what: fmt.Sprintf("string list of %d", k)},
 			&c13case{src: "(or (overlap ls (" + strings.Join(ss, " ") + ")) (in s KLL))", consts: map[string]interface{}{"KLL": sl}, vars: sv, binds: [][]interface{}{{"e 3", true, []string{"e 2"}}, {"zz", true, []string{"q"}}}, what: fmt.Sprintf("string list of %d", k)},
 		)
+	}
+	// nested same-kind and/or groups whose operands total 120..131 once
+	// flattened (each written operator stays <= 127): where Compile accepts the
+	// source, the program it dumps must compile again
+	for _, opn := range []string{"and", "or"} {
+		for total := 120; total <= 131; total++ {
+			for _, split := range []int{2, 64, total - 3} {
+				a, b := split, total-1-split
+				if a < 2 || b < 2 || a > 127 || b > 127 {
+					continue
+				}
+				g := func(k int) string { return "(" + opn + strings.Repeat(" b", k) + ")" }
+				cases = append(cases,
+					&c13case{src: "(" + opn + " " + g(a) + " " + g(b) + " b)", vars: []term.VarDecl{{Name: "b", Ty: term.TB}}, binds: [][]interface{}{{true}, {false}}, what: fmt.Sprintf("nested %s groups totalling %d", opn, total), optional: true},
+					&c13case{src: "(" + opn + " b " + g(a) + " (= 1 1) " + g(b-1) + ")", vars: []term.VarDecl{{Name: "b", Ty: term.TB}}, binds: [][]interface{}{{true}, {false}}, what: fmt.Sprintf("nested %s groups totalling %d", opn, total), optional: true})
+			}
+		}
 	}
 	r.Cov["literal_cases"] = len(cases)
 	hs := harnesses(r.Workers)
